@@ -120,6 +120,27 @@ def neg_sym(p):
     return Poly.sym(("neg", p.freeze()))
 
 
+def deep_subst(poly, sym, val):
+    """replace the 0/1 symbol `sym` by the constant polynomial `val` everywhere, also inside the arguments of other 0/1 symbols:
+    [h < 0] with h = a - [m < 0] becomes [a - 1 < 0] once [m < 0] is known to be 1 on a path"""
+    def inner(t):
+        if t == sym:
+            return val
+        if isinstance(t, tuple) and t and t[0] == "neg":
+            fz = t[2] if len(t) == 3 and t[1] == "nz" else t[1]
+            if isinstance(fz, tuple) and repr(sym) in repr(fz):
+                p2 = deep_subst(Poly(dict(fz)), sym, val)
+                return nz_sym(p2) if len(t) == 3 and t[1] == "nz" else neg_sym(p2)
+        return Poly.sym(t)
+    r = Poly()
+    for m, c in poly.items():
+        term = Poly.const(c)
+        for t in m:
+            term = term * inner(t)
+        r = r + term
+    return r
+
+
 class Path:
     def __init__(self, env=None):
         self.env = dict(env or {})
@@ -398,8 +419,8 @@ class Summariser:
             sv = val if c == Poly.sym(syms[0]) else 1 - val
             for kk in list(path.env):
                 v = path.env[kk]
-                if isinstance(v, Poly) and syms[0] in v.symbols():
-                    path.env[kk] = v.subst(syms[0], Poly.const(sv))
+                if isinstance(v, Poly) and repr(syms[0]) in repr(v):
+                    path.env[kk] = deep_subst(v, syms[0], Poly.const(sv))
             path.env[("fixed", syms[0])] = Poly.const(sv)
             return True
         return True        # compound conditions: no information used
